@@ -22,11 +22,15 @@
     proved here for every arithmetic (`FlR fl` with `fl` arbitrary) as equalities of model terms, which
     is the content of "bit for bit" given that the Rust evaluates the same expression; the statement
     about the compiled code is validated, not proved;
-  * the rounding bound on `(a × b)·a` (orthogonality of the computed cross product up to rounding);
+  * that machine rounding is monotone / fixes representable numbers (hypotheses of
+    `C19_fl_p2_average_between`), and odd (hypothesis of `C19_fl_v3_cross_antisymm`);
   * accuracy of `hypot`/`sqrt`/`acos`: "`unit_dir` returns a vector of norm 1 ± 1e-12 (f64) / 1e-5 (f32)" and
     "skewness ≈ 0 / invariant up to 1e-9" are exact theorems over ℝ here and tolerance tests there;
-  * the angle sum of a convex polygon (hypothesis `hsum` of `C19_skew_nonneg`/`C19_skew_mem_Icc`), and that
-    the corner angles of a convex polygon lie in ]0, π[ (hypothesis `hθ`).
+  * the angle sum of a simple polygon (hypothesis `hsum` of `C19_skew_mem_Ico`), and that the corner angles
+    of a convex polygon lie in ]0, pi[ (hypothesis `hθ`);
+  * that the SIGN OF ZERO agrees in `cross(a,b)` and `-cross(b,a)` (it does not: `x - x = +0`, `-(+0) = -0`; `FlR`
+    has a single zero, the float oracle compares values);
+  * reversal of the face orientation is proved on the list of corner angles (`C19_skew_reverse`), not on the polygon.
 -/
 import Honeycomb.Model.Geometry
 import Mathlib.Tactic.Ring
@@ -678,6 +682,211 @@ theorem C19_fl_orient_sign (h : RoundModel fl u) (a b c : P2 (FlR fl))
   · rw [abs_of_neg hE] at hband
     constructor <;> constructor <;> intro _ <;> linarith [hP.1, hP.2, hQ.1, hQ.2]
 
+/-! ### orthogonality of the computed cross product -/
+
+
+/-- difference of two rounded products of floats:
+    `|fl(fl(x·y) − fl(z·w)) − (x·y − z·w)| ≤ (2u + u²)(|x·y| + |z·w|)` -/
+theorem RoundModel.sub_prod_bound (h : RoundModel fl u) (x y z w : ℝ) :
+    |fl (fl (x * y) - fl (z * w)) - (x * y - z * w)| ≤ (2 * u + u ^ 2) * (|x * y| + |z * w|) := by
+  obtain ⟨d1, hd1, e1⟩ := h.fl_rel (x * y)
+  obtain ⟨d2, hd2, e2⟩ := h.fl_rel (z * w)
+  obtain ⟨d3, hd3, e3⟩ := h.fl_rel (fl (x * y) - fl (z * w))
+  have h13 := mul_err hd1 hd3
+  have h23 := mul_err hd2 hd3
+  have e : fl (fl (x * y) - fl (z * w)) - (x * y - z * w)
+      = (x * y) * (d1 * d3 - 1) - (z * w) * (d2 * d3 - 1) := by
+    rw [e3, e1, e2]; ring
+  rw [e]
+  have g : u + u + u * u = 2 * u + u ^ 2 := by ring
+  rw [g] at h13 h23
+  calc |x * y * (d1 * d3 - 1) - z * w * (d2 * d3 - 1)|
+      ≤ |x * y * (d1 * d3 - 1)| + |z * w * (d2 * d3 - 1)| := abs_sub _ _
+    _ = |x * y| * |d1 * d3 - 1| + |z * w| * |d2 * d3 - 1| := by
+        rw [abs_mul (x * y), abs_mul (z * w)]
+    _ ≤ |x * y| * (2 * u + u ^ 2) + |z * w| * (2 * u + u ^ 2) :=
+        add_le_add (mul_le_mul_of_nonneg_left h13 (abs_nonneg _))
+          (mul_le_mul_of_nonneg_left h23 (abs_nonneg _))
+    _ = (2 * u + u ^ 2) * (|x * y| + |z * w|) := by ring
+
+/-- a rounded three-term dot product of arbitrary reals `s_i = x_i·y_i`:
+    `|fl(fl(fl s0 + fl s1) + fl s2) − (s0 + s1 + s2)| ≤ (3u + 3u² + u³)(|s0| + |s1| + |s2|)` -/
+theorem RoundModel.dot3_bound (h : RoundModel fl u) (s0 s1 s2 : ℝ) :
+    |fl (fl (fl s0 + fl s1) + fl s2) - (s0 + s1 + s2)|
+      ≤ (3 * u + 3 * u ^ 2 + u ^ 3) * (|s0| + |s1| + |s2|) := by
+  have hu0 := h.u_nonneg
+  obtain ⟨d0, hd0, e0⟩ := h.fl_rel s0
+  obtain ⟨d1, hd1, e1⟩ := h.fl_rel s1
+  obtain ⟨d2, hd2, e2⟩ := h.fl_rel s2
+  obtain ⟨d3, hd3, e3⟩ := h.fl_rel (fl s0 + fl s1)
+  obtain ⟨d4, hd4, e4⟩ := h.fl_rel (fl (fl s0 + fl s1) + fl s2)
+  have g2 : u + u + u * u = 2 * u + u ^ 2 := by ring
+  have g3 : (2 * u + u ^ 2) + u + (2 * u + u ^ 2) * u = 3 * u + 3 * u ^ 2 + u ^ 3 := by ring
+  have h03 := mul_err hd0 hd3
+  have h13 := mul_err hd1 hd3
+  rw [g2] at h03 h13
+  have h034 := mul_err h03 hd4
+  have h134 := mul_err h13 hd4
+  have h24 := mul_err hd2 hd4
+  rw [g3] at h034 h134
+  rw [g2] at h24
+  have h24' : |d2 * d4 - 1| ≤ 3 * u + 3 * u ^ 2 + u ^ 3 := by
+    have : 0 ≤ u + 2 * u ^ 2 + u ^ 3 := by positivity
+    linarith
+  have e : fl (fl (fl s0 + fl s1) + fl s2) - (s0 + s1 + s2)
+      = s0 * (d0 * d3 * d4 - 1) + s1 * (d1 * d3 * d4 - 1) + s2 * (d2 * d4 - 1) := by
+    rw [e4, e3, e0, e1, e2]; ring
+  rw [e]
+  calc |s0 * (d0 * d3 * d4 - 1) + s1 * (d1 * d3 * d4 - 1) + s2 * (d2 * d4 - 1)|
+      ≤ |s0 * (d0 * d3 * d4 - 1)| + |s1 * (d1 * d3 * d4 - 1)| + |s2 * (d2 * d4 - 1)| := abs_add_three _ _ _
+    _ = |s0| * |d0 * d3 * d4 - 1| + |s1| * |d1 * d3 * d4 - 1| + |s2| * |d2 * d4 - 1| := by
+        rw [abs_mul, abs_mul, abs_mul]
+    _ ≤ |s0| * (3 * u + 3 * u ^ 2 + u ^ 3) + |s1| * (3 * u + 3 * u ^ 2 + u ^ 3)
+          + |s2| * (3 * u + 3 * u ^ 2 + u ^ 3) :=
+        add_le_add (add_le_add (mul_le_mul_of_nonneg_left h034 (abs_nonneg _))
+          (mul_le_mul_of_nonneg_left h134 (abs_nonneg _)))
+          (mul_le_mul_of_nonneg_left h24' (abs_nonneg _))
+    _ = (3 * u + 3 * u ^ 2 + u ^ 3) * (|s0| + |s1| + |s2|) := by ring
+
+/-- magnitude against which the orthogonality defect of the computed cross product is measured:
+    `Σ |w_i|·(|p_i| + |q_i|)` where `p_i − q_i` is the i-th component of `a × b` -/
+def crossMag (a b w : V3 ℝ) : ℝ :=
+  |w.x| * (|a.y * b.z| + |a.z * b.y|) + |w.y| * (|a.z * b.x| + |a.x * b.z|)
+    + |w.z| * (|a.x * b.y| + |a.y * b.x|)
+
+def toR3 (v : V3 (FlR fl)) : V3 ℝ := ⟨v.x.val, v.y.val, v.z.val⟩
+
+/-- scalar core: if `ĉ_i` approximates `c_i` with `|ĉ_i − c_i| ≤ ε·m_i`, `|c_i| ≤ m_i` and `Σ c_i w_i = 0`, the rounded dot
+    product `ĉ·w` is bounded by `(ε + γ₃(1 + ε))·Σ|w_i| m_i` -/
+theorem RoundModel.orth_bound (h : RoundModel fl u) {c0 c1 c2 k0 k1 k2 m0 m1 m2 w0 w1 w2 ε : ℝ}
+        (h0 : |k0 - c0| ≤ ε * m0) (h1 : |k1 - c1| ≤ ε * m1) (h2 : |k2 - c2| ≤ ε * m2)
+    (b0 : |c0| ≤ m0) (b1 : |c1| ≤ m1) (b2 : |c2| ≤ m2)
+    (horth : c0 * w0 + c1 * w1 + c2 * w2 = 0) :
+    |fl (fl (fl (k0 * w0) + fl (k1 * w1)) + fl (k2 * w2))|
+      ≤ (ε + (3 * u + 3 * u ^ 2 + u ^ 3) * (1 + ε)) * (|w0| * m0 + |w1| * m1 + |w2| * m2) := by
+  have hu0 := h.u_nonneg
+  have hg : 0 ≤ 3 * u + 3 * u ^ 2 + u ^ 3 := by positivity
+  have hd := h.dot3_bound (k0 * w0) (k1 * w1) (k2 * w2)
+  -- |k_i| ≤ (1 + ε) m_i
+  have kb : ∀ {k c m : ℝ}, |k - c| ≤ ε * m → |c| ≤ m → |k| ≤ (1 + ε) * m := by
+    intro k c m hk hc
+    have : |k| ≤ |k - c| + |c| := by
+      have := abs_add_le (k - c) c
+      simpa using this
+    linarith
+  have kw : ∀ {k c m w : ℝ}, |k - c| ≤ ε * m → |c| ≤ m → |k * w| ≤ (1 + ε) * (|w| * m) := by
+    intro k c m w hk hc
+    rw [abs_mul]
+    have := mul_le_mul_of_nonneg_right (kb hk hc) (abs_nonneg w)
+    linarith
+  have ew : ∀ {k c m w : ℝ}, |k - c| ≤ ε * m → |(k - c) * w| ≤ ε * (|w| * m) := by
+    intro k c m w hk
+    rw [abs_mul]
+    have := mul_le_mul_of_nonneg_right hk (abs_nonneg w)
+    linarith
+  have hsum : k0 * w0 + k1 * w1 + k2 * w2 = (k0 - c0) * w0 + (k1 - c1) * w1 + (k2 - c2) * w2 := by
+    have : (k0 - c0) * w0 + (k1 - c1) * w1 + (k2 - c2) * w2
+        = k0 * w0 + k1 * w1 + k2 * w2 - (c0 * w0 + c1 * w1 + c2 * w2) := by ring
+    rw [this, horth, sub_zero]
+  have hS : |k0 * w0 + k1 * w1 + k2 * w2| ≤ ε * (|w0| * m0 + |w1| * m1 + |w2| * m2) := by
+    rw [hsum]
+    have := abs_add_three ((k0 - c0) * w0) ((k1 - c1) * w1) ((k2 - c2) * w2)
+    have := ew (w := w0) h0
+    have := ew (w := w1) h1
+    have := ew (w := w2) h2
+    linarith
+  have hT : |k0 * w0| + |k1 * w1| + |k2 * w2| ≤ (1 + ε) * (|w0| * m0 + |w1| * m1 + |w2| * m2) := by
+    have := kw (w := w0) h0 b0
+    have := kw (w := w1) h1 b1
+    have := kw (w := w2) h2 b2
+    linarith
+  have hd' : |fl (fl (fl (k0 * w0) + fl (k1 * w1)) + fl (k2 * w2))|
+      ≤ |k0 * w0 + k1 * w1 + k2 * w2| + (3 * u + 3 * u ^ 2 + u ^ 3) * (|k0 * w0| + |k1 * w1| + |k2 * w2|) := by
+    have := abs_add_le (fl (fl (fl (k0 * w0) + fl (k1 * w1)) + fl (k2 * w2)) - (k0 * w0 + k1 * w1 + k2 * w2))
+      (k0 * w0 + k1 * w1 + k2 * w2)
+    simp only [sub_add_cancel] at this
+    linarith
+  have := mul_le_mul_of_nonneg_left hT hg
+  calc _ ≤ _ := hd'
+    _ ≤ ε * (|w0| * m0 + |w1| * m1 + |w2| * m2)
+        + (3 * u + 3 * u ^ 2 + u ^ 3) * ((1 + ε) * (|w0| * m0 + |w1| * m1 + |w2| * m2)) := by linarith
+    _ = _ := by ring
+
+/-- **orthogonality up to rounding.**  The computed `(a × b)·a` and `(a × b)·b` (11 rounded operations
+    each, in the order of `Vector3::cross` and `Vector3::dot`) are bounded by
+    `K·Σ|w_i|(|p_i| + |q_i|)` with `K = (2u + u²) + (3u + 3u² + u³)(1 + 2u + u²) = 5u + O(u²)`. -/
+theorem C19_fl_v3_cross_dot_bound (h : RoundModel fl u) (a b : V3 (FlR fl)) :
+    |(V3.dot (V3.cross a b) a).val|
+      ≤ ((2 * u + u ^ 2) + (3 * u + 3 * u ^ 2 + u ^ 3) * (1 + (2 * u + u ^ 2)))
+          * crossMag (toR3 a) (toR3 b) (toR3 a) ∧
+    |(V3.dot (V3.cross a b) b).val|
+      ≤ ((2 * u + u ^ 2) + (3 * u + 3 * u ^ 2 + u ^ 3) * (1 + (2 * u + u ^ 2)))
+          * crossMag (toR3 a) (toR3 b) (toR3 b) := by
+  simp only [V3.dot, V3.cross, crossMag, toR3, FlR.add_val, FlR.mul_val, FlR.sub_val]
+  constructor
+  · exact h.orth_bound (h.sub_prod_bound _ _ _ _) (h.sub_prod_bound _ _ _ _) (h.sub_prod_bound _ _ _ _)
+      (abs_sub _ _) (abs_sub _ _) (abs_sub _ _) (by ring)
+  · exact h.orth_bound (h.sub_prod_bound _ _ _ _) (h.sub_prod_bound _ _ _ _) (h.sub_prod_bound _ _ _ _)
+      (abs_sub _ _) (abs_sub _ _) (abs_sub _ _) (by ring)
+
+/-- the constant is below `6u` for every `u ≤ 1/16` (so for `2⁻²⁴` and `2⁻⁵³`): the bound used by the float oracle -/
+theorem cross_dot_const_le {u : ℝ} (h0 : 0 ≤ u) (h1 : u ≤ 1 / 16) :
+    (2 * u + u ^ 2) + (3 * u + 3 * u ^ 2 + u ^ 3) * (1 + (2 * u + u ^ 2)) ≤ 6 * u := by
+  have h2 : u ^ 2 ≤ u / 16 := by nlinarith
+  have h3 : u ^ 3 ≤ u / 256 := by nlinarith
+  have h4 : u ^ 4 ≤ u / 4096 := by nlinarith
+  have h5 : u ^ 5 ≤ u / 65536 := by nlinarith
+  have e : (2 * u + u ^ 2) + (3 * u + 3 * u ^ 2 + u ^ 3) * (1 + (2 * u + u ^ 2))
+      = 5 * u + 10 * u ^ 2 + 10 * u ^ 3 + 5 * u ^ 4 + u ^ 5 := by ring
+  rw [e]; linarith
+
+/-! ### the computed average lies between its arguments -/
+
+/-- `x` and `2x` are representable (true of every finite float whose double does not overflow) -/
+def Rep (fl : ℝ → ℝ) (x : ℝ) : Prop := fl x = x ∧ fl (2 * x) = 2 * x
+
+/-- with a MONOTONE rounding, the computed midpoint `fl(fl(a + b) / 2)` of two representable numbers lies
+    between them (no relative-error hypothesis needed) -/
+theorem fl_mid_between (hmono : Monotone fl) {a b : ℝ} (ha : Rep fl a) (hb : Rep fl b) :
+    min a b ≤ fl (fl (a + b) / 2) ∧ fl (fl (a + b) / 2) ≤ max a b := by
+  have key : ∀ {x y : ℝ}, Rep fl x → Rep fl y → x ≤ y →
+      x ≤ fl (fl (x + y) / 2) ∧ fl (fl (x + y) / 2) ≤ y := by
+    intro x y hx hy hxy
+    have h1 : 2 * x ≤ fl (x + y) := by
+      have := hmono (by linarith : 2 * x ≤ x + y)
+      rwa [hx.2] at this
+    have h2 : fl (x + y) ≤ 2 * y := by
+      have := hmono (by linarith : x + y ≤ 2 * y)
+      rwa [hy.2] at this
+    constructor
+    · have := hmono (by linarith : x ≤ fl (x + y) / 2)
+      rwa [hx.1] at this
+    · have := hmono (by linarith : fl (x + y) / 2 ≤ y)
+      rwa [hy.1] at this
+  rcases le_total a b with h | h
+  · rw [min_eq_left h, max_eq_right h]; exact key ha hb h
+  · rw [min_eq_right h, max_eq_left h, add_comm a b]
+    exact key hb ha h
+
+@[simp] theorem FlR.two_val : (2 : FlR fl).val = 2 := rfl
+
+theorem C19_fl_p2_average_between (hmono : Monotone fl) (a b : P2 (FlR fl))
+    (hax : Rep fl a.x.val) (hbx : Rep fl b.x.val) (hay : Rep fl a.y.val) (hby : Rep fl b.y.val) :
+    (min a.x.val b.x.val ≤ (P2.average a b).x.val ∧ (P2.average a b).x.val ≤ max a.x.val b.x.val) ∧
+    (min a.y.val b.y.val ≤ (P2.average a b).y.val ∧ (P2.average a b).y.val ≤ max a.y.val b.y.val) := by
+  simp only [P2.average, FlR.div_val, FlR.add_val, FlR.two_val]
+  exact ⟨fl_mid_between hmono hax hbx, fl_mid_between hmono hay hby⟩
+
+theorem C19_fl_p3_average_between (hmono : Monotone fl) (a b : P3 (FlR fl))
+    (hax : Rep fl a.x.val) (hbx : Rep fl b.x.val) (hay : Rep fl a.y.val) (hby : Rep fl b.y.val)
+    (haz : Rep fl a.z.val) (hbz : Rep fl b.z.val) :
+    (min a.x.val b.x.val ≤ (P3.average a b).x.val ∧ (P3.average a b).x.val ≤ max a.x.val b.x.val) ∧
+    (min a.y.val b.y.val ≤ (P3.average a b).y.val ∧ (P3.average a b).y.val ≤ max a.y.val b.y.val) ∧
+    (min a.z.val b.z.val ≤ (P3.average a b).z.val ∧ (P3.average a b).z.val ≤ max a.z.val b.z.val) := by
+  simp only [P3.average, FlR.div_val, FlR.add_val, FlR.two_val]
+  exact ⟨fl_mid_between hmono hax hbx, fl_mid_between hmono hay hby, fl_mid_between hmono haz hbz⟩
+
+
 end Rounding
 
 /-! ## (c) skewness over ℝ
@@ -974,6 +1183,94 @@ theorem C19_faceSkew_similarity (acos : ℝ → ℝ) (pi : ℝ) {f : P2 ℝ → 
   intro c _
   simp only [Function.comp, C19_cornerCos_similarity hf]
 
+/-! ### choice of the starting dart, on the polygon -/
+
+/-- the vertex list read from the next dart of the face (`β1 fid` instead of `fid`) -/
+def rotate1 {β : Type} : List β → List β
+  | [] => []
+  | a :: r => r ++ [a]
+
+theorem rotate1_length {β : Type} (l : List β) : (rotate1 l).length = l.length := by
+  cases l <;> simp [rotate1]
+
+theorem rotate1_getElem? {β : Type} (a : β) (r : List β) (j : Nat) :
+    (r ++ [a])[j % (r.length + 1)]? = (a :: r)[(j + 1) % (r.length + 1)]? := by
+  have hlt : j % (r.length + 1) < r.length + 1 := Nat.mod_lt _ (Nat.succ_pos _)
+  rw [Nat.add_mod]
+  by_cases h : j % (r.length + 1) < r.length
+  · have h1 : (1 : Nat) % (r.length + 1) = 1 % (r.length + 1) := rfl
+    have : (j % (r.length + 1) + 1 % (r.length + 1)) % (r.length + 1) = j % (r.length + 1) + 1 := by
+      rcases Nat.eq_zero_or_pos r.length with h0 | h0
+      · omega
+      · rw [Nat.mod_eq_of_lt (by omega : 1 < r.length + 1), Nat.mod_eq_of_lt (by omega)]
+    rw [this, List.getElem?_append_left h, List.getElem?_cons_succ]
+  · have he : j % (r.length + 1) = r.length := by omega
+    have : (j % (r.length + 1) + 1 % (r.length + 1)) % (r.length + 1) = 0 := by
+      rw [he]
+      rcases Nat.eq_zero_or_pos r.length with h0 | h0
+      · rw [h0]
+      · rw [Nat.mod_eq_of_lt (by omega : 1 < r.length + 1), Nat.mod_self]
+    rw [this, he, List.getElem?_append_right (Nat.le_refl _)]
+    simp
+
+theorem perm_map_succ_mod (m : Nat) :
+    ((List.range (m + 1)).map fun i => (i + 1) % (m + 1)).Perm (List.range (m + 1)) := by
+  have h1 : (List.range (m + 1)).map (fun i => (i + 1) % (m + 1))
+      = (List.range m).map (· + 1) ++ [0] := by
+    rw [List.range_succ, List.map_append]
+    congr 1
+    · apply List.map_congr_left
+      intro i hi
+      have := List.mem_range.mp hi
+      exact Nat.mod_eq_of_lt (by omega)
+    · simp
+  rw [h1, List.range_succ_eq_map]
+  exact List.perm_append_singleton _ _
+
+theorem corners_rotate1_perm {β : Type} (pts : List β) :
+    (corners (rotate1 pts)).Perm (corners pts) := by
+  cases pts with
+  | nil => exact List.Perm.refl _
+  | cons a r =>
+    have hfun : corners (rotate1 (a :: r))
+        = ((List.range (r.length + 1)).map fun i => (i + 1) % (r.length + 1)).filterMap fun i =>
+            match (a :: r)[i % (r.length + 1)]?, (a :: r)[(i + 1) % (r.length + 1)]?,
+              (a :: r)[(i + 2) % (r.length + 1)]? with
+            | some x, some y, some z => some (x, y, z)
+            | _, _, _ => none := by
+      simp only [corners, rotate1, List.length_append, List.length_cons, List.length_nil,
+        List.filterMap_map, Nat.zero_add]
+      apply List.filterMap_congr
+      intro i _
+      simp only [Function.comp]
+      rw [rotate1_getElem? a r i, rotate1_getElem? a r (i + 1), rotate1_getElem? a r (i + 2)]
+      have e0 : (i + 1) % (r.length + 1) % (r.length + 1) = (i + 1) % (r.length + 1) := Nat.mod_mod _ _
+      have e1 : ((i + 1) % (r.length + 1) + 1) % (r.length + 1) = (i + 1 + 1) % (r.length + 1) := by
+        rw [Nat.add_mod, Nat.mod_mod, ← Nat.add_mod]
+      have e2 : ((i + 1) % (r.length + 1) + 2) % (r.length + 1) = (i + 2 + 1) % (r.length + 1) := by
+        rw [Nat.add_mod, Nat.mod_mod, ← Nat.add_mod]
+      rw [e0, e1, e2]
+      generalize (a :: r)[(i + 1) % (r.length + 1)]? = x
+      generalize (a :: r)[(i + 1 + 1) % (r.length + 1)]? = y
+      generalize (a :: r)[(i + 2 + 1) % (r.length + 1)]? = z
+      cases x <;> cases y <;> cases z <;> rfl
+    rw [hfun]
+    simp only [corners, List.length_cons]
+    exact (perm_map_succ_mod r.length).filterMap _
+
+theorem corners_iterate_rotate1_perm {β : Type} (k : Nat) (pts : List β) :
+    (corners (rotate1^[k] pts)).Perm (corners pts) := by
+  induction k generalizing pts with
+  | zero => exact List.Perm.refl _
+  | succ k ih =>
+    rw [Function.iterate_succ_apply]
+    exact (ih (rotate1 pts)).trans (corners_rotate1_perm pts)
+
+/-- **choice of the starting dart**: reading the face from its `k`-th dart does not change the value -/
+theorem C19_faceSkew_start_dart (acos : ℝ → ℝ) (pi : ℝ) (k : Nat) (pts : List (P2 ℝ)) :
+    faceSkew acos pi (rotate1^[k] pts) = faceSkew acos pi pts :=
+  C19_skew_perm pi ((corners_iterate_rotate1_perm k pts).map _)
+
 end Skew
 
 /-! ## Non-vacuity: every theorem is instantiated, every hypothesis shown satisfiable -/
@@ -1160,6 +1457,44 @@ example (acos : ℝ → ℝ) (pts : List (P2 ℝ)) :
   C19_faceSkew_similarity acos 3 (similarity_rotate (by norm_num)) pts
 example : corners ([1, 2, 3].map (· + 1)) = (corners [1, 2, 3]).map fun c => (c.1 + 1, c.2.1 + 1, c.2.2 + 1) :=
   corners_map _ _
+
+-- added rounding theorems
+example (x y z w : ℝ) := roundModel_quarter.sub_prod_bound x y z w
+example (s0 s1 s2 : ℝ) := roundModel_quarter.dot3_bound s0 s1 s2
+example (a b : V3 (FlR fun x => x * (1 + 1 / 4))) := C19_fl_v3_cross_dot_bound roundModel_quarter a b
+/-- the hypotheses of the scalar core are satisfiable: exact cross product of `e_x`, `e_y` against `e_x` -/
+example := roundModel_quarter.orth_bound (c0 := 0) (c1 := 0) (c2 := 1) (k0 := 0) (k1 := 0) (k2 := 1)
+  (m0 := 0) (m1 := 0) (m2 := 1) (w0 := 1) (w1 := 0) (w2 := 0) (ε := 0)
+  (by norm_num) (by norm_num) (by norm_num) (by norm_num) (by norm_num) (by norm_num) (by norm_num)
+example : (2 * (2⁻¹ : ℝ) ^ 24 + ((2⁻¹ : ℝ) ^ 24) ^ 2)
+    + (3 * (2⁻¹ : ℝ) ^ 24 + 3 * ((2⁻¹ : ℝ) ^ 24) ^ 2 + ((2⁻¹ : ℝ) ^ 24) ^ 3) * (1 + (2 * (2⁻¹ : ℝ) ^ 24 + ((2⁻¹ : ℝ) ^ 24) ^ 2))
+    ≤ 6 * (2⁻¹ : ℝ) ^ 24 := cross_dot_const_le (by positivity) (by norm_num)
+/-- satisfiable with an inexact monotone rounding: round to the nearest integer below (`⌊x⌋`) -/
+example : (min (1 : ℝ) 4 ≤ (fun x : ℝ => (⌊x⌋ : ℝ)) ((fun x : ℝ => (⌊x⌋ : ℝ)) (1 + 4) / 2)) :=
+  (fl_mid_between (fl := fun x : ℝ => (⌊x⌋ : ℝ)) (fun x y h => by
+      show ((⌊x⌋ : ℤ) : ℝ) ≤ ((⌊y⌋ : ℤ) : ℝ)
+      exact_mod_cast Int.floor_le_floor h)
+    (a := 1) (b := 4) ⟨by norm_num, by norm_num⟩ ⟨by norm_num, by norm_num⟩).1
+
+example (a b : P2 (FlR fun x : ℝ => (⌊x⌋ : ℝ))) (h : Monotone fun x : ℝ => (⌊x⌋ : ℝ))
+    (h1 : Rep (fun x : ℝ => (⌊x⌋ : ℝ)) a.x.val) (h2 : Rep (fun x : ℝ => (⌊x⌋ : ℝ)) b.x.val)
+    (h3 : Rep (fun x : ℝ => (⌊x⌋ : ℝ)) a.y.val) (h4 : Rep (fun x : ℝ => (⌊x⌋ : ℝ)) b.y.val) :=
+  C19_fl_p2_average_between h a b h1 h2 h3 h4
+example (a b : P3 (FlR fun x : ℝ => (⌊x⌋ : ℝ))) (h : Monotone fun x : ℝ => (⌊x⌋ : ℝ))
+    (h1 : Rep (fun x : ℝ => (⌊x⌋ : ℝ)) a.x.val) (h2 : Rep (fun x : ℝ => (⌊x⌋ : ℝ)) b.x.val)
+    (h3 : Rep (fun x : ℝ => (⌊x⌋ : ℝ)) a.y.val) (h4 : Rep (fun x : ℝ => (⌊x⌋ : ℝ)) b.y.val)
+    (h5 : Rep (fun x : ℝ => (⌊x⌋ : ℝ)) a.z.val) (h6 : Rep (fun x : ℝ => (⌊x⌋ : ℝ)) b.z.val) :=
+  C19_fl_p3_average_between h a b h1 h2 h3 h4 h5 h6
+
+-- starting dart on the polygon
+example : rotate1 [1, 2, 3] = [2, 3, 1] := rfl
+example : (rotate1 [1, 2, 3]).length = 3 := rotate1_length _
+example := rotate1_getElem? 1 [2, 3] 5
+example := perm_map_succ_mod 4
+example : (corners (rotate1 [1, 2, 3])).Perm (corners [1, 2, 3]) := corners_rotate1_perm _
+example : (corners (rotate1^[2] [1, 2, 3, 4])).Perm (corners [1, 2, 3, 4]) := corners_iterate_rotate1_perm 2 _
+example (acos : ℝ → ℝ) (pts : List (P2 ℝ)) : faceSkew acos 3 (rotate1^[2] pts) = faceSkew acos 3 pts :=
+  C19_faceSkew_start_dart acos 3 2 pts
 
 end Examples
 
